@@ -463,40 +463,28 @@ def check_pack_info():
     return None
 
 
-class _FailingMember:
-    """a real TarFile whose extractfile() fails for ONE member (a member whose data cannot be read)"""
-
-    def __init__(self, tf, bad):
-        self._tf, self._bad = tf, bad
-
-    def __getattr__(self, name):
-        return getattr(self._tf, name)
-
-    def __enter__(self):
-        self._tf.__enter__()
-        return self
-
-    def __exit__(self, *a):
-        return self._tf.__exit__(*a)
-
-    def extractfile(self, member):
-        if member.name == self._bad:
-            raise OSError("unreadable member (injected)")
-        return self._tf.extractfile(member)
-
-
 def check_tar_member_read_failure():
-    """a TAR member whose bytes cannot be read affects only itself: the other members still come out, in order"""
-    from sharepoint2text.parsing.extractors import archive_extractor as ae
+    """a TAR member whose bytes cannot be read affects only itself: the other members still come out, in order.
+    The failure is injected into tarfile.TarFile.extractfile itself (the real class: every way of opening and walking the
+    archive keeps working); if the code under test never reads the member through it, nothing was injected: no verdict."""
     entries = list(DOCS[:4])
     data = write_tar(entries, "w")
-    real_open = ae.tarfile.open
+    real = tarfile.TarFile.extractfile
     for bad in (entries[0][0], entries[1][0], entries[3][0]):
-        ae.tarfile.open = lambda *a, **k: _FailingMember(real_open(*a, **k), bad)
+        hit = []
+
+        def failing(self, member, bad=bad, hit=hit):
+            if getattr(member, "name", member) == bad:
+                hit.append(1)
+                raise OSError("unreadable member (injected)")
+            return real(self, member)
+        tarfile.TarFile.extractfile = failing
         try:
             got, err = run_archive(data, "a.tar")
         finally:
-            ae.tarfile.open = real_open
+            tarfile.TarFile.extractfile = real
+        if not hit:
+            return None
         want = expected([e for e in entries if e[0] != bad], "a.tar")
         d = first_diff(got, want)
         if err is not None or d is not None:
